@@ -63,3 +63,76 @@ def required2(maxseq=2, **kw):
 
 ALL = dict(chain2=chain2, chain3=chain3, tee=tee, tee_rejoin2=tee_rejoin2, join2=join2, eph_side=eph_side,
            balance2=balance2, hidden=hidden, required2=required2)
+
+
+def with_required(topo):
+    """every publisher declares its synchronized consumers as required outputs (the C03 assumption)"""
+    for g in topo.names:
+        req = sorted({c[0] for c in topo.conns_of(g) if topo.src_of(c)['eph'] == 0})
+        if req and topo.filters[g]['nout']:
+            topo.filters[g]['required'] = req
+    topo.name += 'Req'
+    return topo
+
+
+def chain3_lazy(maxseq=2, **kw):
+    t = chain3(maxseq=maxseq, **kw)
+    t.filters['S']['beh']['lazy'] = True
+    t.name = 'Chain3Lazy'
+    return t
+
+
+def tee_rejoin_eph(maxseq=2, **kw):
+    """S -> A -> K and S -> E(?) -> K(?): an ephemeral branch rejoined as an ephemeral source"""
+    return Topo('TeeRejoinEph', {
+        'S': dict(nout=1, beh=beh('origin', tseq=[['main']])),
+        'A': dict(srcs=[src('S')], nout=1),
+        'E': dict(srcs=[src('S', eph=1)], nout=1, beh=beh('relay', slow=True)),
+        'K': dict(srcs=[src('A', topics=[('main', 'a')]), src('E', eph=1, topics=[('main', 'e')])]),
+    }, maxseq=maxseq, **kw)
+
+
+def sync_only(topo):
+    """the topology with every ephemeral consumer removed (for the C05 differential)"""
+    import copy
+    fl = copy.deepcopy(topo.filters)
+    drop = set()
+    changed = True
+    while changed:
+        changed = False
+        for f, d in list(fl.items()):
+            if f in drop:
+                continue
+            d['srcs'] = [s for s in d['srcs'] if s['pub'] not in drop]
+            if topo.filters[f]['srcs'] and (not d['srcs'] or all(s['eph'] > 0 for s in d['srcs'])):
+                drop.add(f)
+                changed = True
+    for f in drop:
+        del fl[f]
+    for d in fl.values():
+        d['srcs'] = [s for s in d['srcs'] if s['eph'] == 0]
+    t = Topo(topo.name + 'Sync', fl, maxseq=topo.maxseq, conn_ticks=topo.conn_ticks, pub_hwm=topo.pub_hwm,
+             push_hwm=topo.push_hwm, handshake=topo.handshake, topic_order=topo.topic_order)
+    t.fidx = {f: topo.fidx[f] for f in fl}      # same ports and path codes as in the full topology
+    return t
+
+
+def balance3(maxseq=4, **kw):
+    return Topo('Balance3', {'S': dict(nout=3, outbal=True, beh=beh('origin', tseq=[['main']])),
+                             'W1': dict(srcs=[src('S', out=1)], nout=1),
+                             'W2': dict(srcs=[src('S', out=2)], nout=1, beh=beh('relay', slow=True)),
+                             'W3': dict(srcs=[src('S', out=3)], nout=1),
+                             'J': dict(srcs=[src('W1'), src('W2'), src('W3')], srcbal=True)}, maxseq=maxseq, **kw)
+
+
+def balance2_watch(maxseq=3, **kw):
+    t = balance2(maxseq=maxseq, **kw)
+    t.filters['X'] = dict(srcs=[src('S', out=1, eph=2)], nout=0, outbal=False, srcbal=False, required=[],
+                          beh=beh('sink'))
+    t.names.append('X')
+    t.fidx['X'] = len(t.names)
+    t.name = 'Balance2Watch'
+    return t
+
+
+ALL.update(chain3_lazy=chain3_lazy, tee_rejoin_eph=tee_rejoin_eph, balance3=balance3, balance2_watch=balance2_watch)
